@@ -282,6 +282,11 @@ func (dc *decoderCtx) credits(fn *ssa.Function, root ssa.Value) []credit {
 						for _, f := range dc.summary(callee, j) {
 							out = append(out, credit{b, i, f})
 						}
+						// a callee that lets &ps.F escape (a pointer view of the header handed back to the caller) may have it
+						// written by code this analysis does not follow: the field is given the benefit of the doubt
+						for _, f := range dc.escapingFields(callee, j, 0) {
+							out = append(out, credit{b, i, f})
+						}
 					}
 					// &ps.F handed to a helper that stores through it on every possible-success return (readUint32(r, &ps.TreeDepth))
 					if fa, ok := a.(*ssa.FieldAddr); ok && isPSPointer(fa.X.Type(), dc.ps) && psRoot(fa.X, 0) == root && st != nil && j < len(callee.Params) {
@@ -315,6 +320,40 @@ func (dc *decoderCtx) credits(fn *ssa.Function, root ssa.Value) []credit {
 			}
 		}
 	}
+	return out
+}
+
+// escapingFields: fields of parameter j whose address fn stores somewhere, returns or hands to a function value.
+func (dc *decoderCtx) escapingFields(fn *ssa.Function, j int, depth int) []string {
+	st, _ := dc.ps.Underlying().(*types.Struct)
+	if st == nil || j >= len(fn.Params) || depth > 3 {
+		return nil
+	}
+	root := ssa.Value(fn.Params[j])
+	set := map[string]bool{}
+	for _, b := range fn.Blocks {
+		for _, in := range b.Instrs {
+			fa, ok := in.(*ssa.FieldAddr)
+			if !ok || !isPSPointer(fa.X.Type(), dc.ps) || psRoot(fa.X, 0) != root || fa.Referrers() == nil {
+				continue
+			}
+			for _, r := range *fa.Referrers() {
+				switch u := r.(type) {
+				case *ssa.Store:
+					if u.Val == ssa.Value(fa) {
+						set[st.Field(fa.Field).Name()] = true // the address itself is stored
+					}
+				case *ssa.Return, *ssa.MakeInterface, *ssa.MakeClosure, *ssa.Phi:
+					set[st.Field(fa.Field).Name()] = true
+				}
+			}
+		}
+	}
+	var out []string
+	for f := range set {
+		out = append(out, f)
+	}
+	sort.Strings(out)
 	return out
 }
 
